@@ -1,6 +1,7 @@
 use std::env;
 use std::fs;
 use std::io;
+use std::io::Write;
 use std::rc::Rc;
 
 use builtins::functions::BUILTINFNS;
@@ -116,7 +117,8 @@ pub fn run_prompt(args: Vec<String>) {
                 let stack_elem = vm.last_popped();
                 // print last popped element if it is not null
                 if !matches!(stack_elem.as_ref(), Object::Null) {
-                    println!("{}", stack_elem);
+                    // (a closed or full stdout must not abort the interpreter)
+                    let _ = writeln!(std::io::stdout(), "{}", stack_elem);
                 }
                 globals = vm.globals;
                 symtab = compiler.symtab;
@@ -183,7 +185,8 @@ pub fn run_buf(buf: String, args: Vec<String>, cmd_mode: bool, skip_pcap: bool) 
         let stack_elem = vm.last_popped();
         // print last popped element if it is not null
         if !matches!(stack_elem.as_ref(), Object::Null) {
-            println!("{}", stack_elem);
+            // (a closed or full stdout must not abort the interpreter)
+            let _ = writeln!(std::io::stdout(), "{}", stack_elem);
         }
     }
 
